@@ -17,6 +17,7 @@ import (
 	"github.com/Oneledger/protocol/data/governance"
 	"github.com/Oneledger/protocol/data/keys"
 	"github.com/Oneledger/protocol/serialize"
+	"github.com/tendermint/tendermint/crypto/secp256k1"
 )
 
 type labKind struct {
@@ -36,11 +37,40 @@ type lab struct {
 
 func (l *lab) memo() string { l.n++; return fmt.Sprintf("lab%d", l.n) }
 
+// deterministic key of another algorithm (SECP256K1 / ETHSECP) from a seed byte
+func seedKeyAlg(b byte, alg keys.Algorithm) Key {
+	seed := make([]byte, 32)
+	for i := range seed {
+		seed[i] = b
+	}
+	seed[0] = 1
+	priv, err := keys.GetPrivateKeyFromBytes(seed, alg)
+	must(err)
+	ph, err := priv.GetHandler()
+	must(err)
+	pub := ph.PubKey()
+	if alg == keys.SECP256K1 {
+		// PrivateKeySECP256K1.PubKey() returns the amino-prefixed encoding, which the public key
+		// handler refuses: take the 33 raw bytes
+		var sk secp256k1.PrivKeySecp256k1
+		copy(sk[:], seed)
+		raw := sk.PubKey().(secp256k1.PubKeySecp256k1)
+		pub, err = keys.GetPublicKeyFromBytes(raw[:], keys.SECP256K1)
+		must(err)
+	}
+	h, err := pub.GetHandler()
+	must(err)
+	return Key{pub, priv, h.Address()}
+}
+
 // newLab builds a replica and runs the set-up blocks
 func newLab(nodeSeed byte) *lab {
 	w := NewWorld(3, 6, 2)
 	l := &lab{W: w, Attacker: w.Users[5]}
-	rep := NewReplica(w.Genesis(), ReplicaOpts{NodeVal: w.Vals[0].Val, NodeSeed: nodeSeed})
+	secp := seedKeyAlg(150, keys.SECP256K1)
+	gspec := w.Genesis()
+	gspec.Funded = append(gspec.Funded, secp.Addr)
+	rep := NewReplica(gspec, ReplicaOpts{NodeVal: w.Vals[0].Val, NodeSeed: nodeSeed})
 	l.Rep = rep
 	rep.InitChain()
 	GAS = 1000000
@@ -78,6 +108,7 @@ func newLab(nodeSeed byte) *lab {
 	}
 	one := func(x Key) []Key { return []Key{x} }
 	k("SEND", u0, one(u0), func(m string) []byte { return txSend(u0, u1.Addr, oltAmt("1000000000000"), m) })
+	k("SEND_SECP256K1", secp, one(secp), func(m string) []byte { return txSend(secp, u1.Addr, oltAmt("1000000000000"), m) })
 	k("SENDPOOL", u0, one(u0), func(m string) []byte { return txSendPool(u0, "BountyPool", oltAmt("1000000000000"), m) })
 	k("STAKE", v0.Stake, []Key{v0.Stake, v0.Val}, func(m string) []byte { return txStake(v0, oltAmt("10"), m) })
 	k("UNSTAKE", v0.Stake, []Key{v0.Stake, v0.Val}, func(m string) []byte { return txUnstake(v0, oltAmt("5"), m) })
@@ -208,6 +239,9 @@ func (l *lab) mutants(k labKind, base []byte) []labMutant {
 	add("memo", "content", func(tx *action.SignedTx) bool { tx.Memo += "x"; return true })
 	add("sig.flip", "sig", func(tx *action.SignedTx) bool {
 		s := append([]byte{}, tx.Signatures[0].Signed...)
+		if len(s) < 4 {
+			return false
+		}
 		s[3] ^= 0x40
 		tx.Signatures[0].Signed = s
 		return true
@@ -225,10 +259,33 @@ func (l *lab) mutants(k labKind, base []byte) []labMutant {
 	})
 	add("sig.key-algorithm", "sig", func(tx *action.SignedTx) bool {
 		p := tx.Signatures[0].Signer
+		if p.KeyType == keys.SECP256K1 {
+			return false // not a mutation for this key; the relabelling mutants below cover it
+		}
 		p.KeyType = keys.SECP256K1
 		tx.Signatures[0].Signer = p
 		return true
 	})
+	// the required signer's PUBLIC key relabelled with every other key algorithm, with junk, empty
+	// and the original signature bytes: no algorithm's handler may accept it for that address
+	for _, alg := range []string{"ed25519", "secp256k1", "btcecsecp", "ethsecp"} {
+		for _, sigv := range []string{"junk", "empty", "orig"} {
+			tx := decodeSigned(base)
+			cur := tx.Signatures[0].Signer.KeyType.String()
+			if cur == alg {
+				continue
+			}
+			switch sigv {
+			case "junk":
+				tx.Signatures[0].Signed = bytes.Repeat([]byte{0x5a}, 64)
+			case "empty":
+				tx.Signatures[0].Signed = []byte{}
+			}
+			bz := encodeSigned(tx)
+			out := []byte(strings.Replace(string(bz), `"keyType":"`+cur+`"`, `"keyType":"`+alg+`"`, 1))
+			ms = append(ms, labMutant{"sig.key-relabelled-" + alg + "-" + sigv, "attacker", out})
+		}
+	}
 	// the same content signed (correctly) by each OTHER account the payload names (recipient,
 	// beneficiary, validator, ...): authority must come from the spender, not from whoever is named
 	{
